@@ -13,7 +13,7 @@ exe = checks.build_core()
 R = vplib.Result("CXX", "quick", 1)
 d, (st, ed, ini) = checks.e1_dump(R, "CoreMC.tla", cfg + ".cfg", cfg + ".replay")
 tab = os.path.join(d, "g.tab")
-vplib.write_table(tab, st, ed, ini, checks.core_canon(mods, maxpay))
+vplib.write_table(tab, st, ed, ini, checks.core_canon(mods, maxpay, int(env.get("VP_NKEYS", "1"))))
 e = {"VP_MODS": ",".join(mods), "VP_MAXPAY": str(maxpay), "GW_REPLAY": rp}
 e.update(env)
 rc, out, _ = vplib.sh([exe, tab, "/tmp", "replay", "0", "0", "0", "0", "1"], env=e, timeout=120)
